@@ -76,7 +76,8 @@ def opDtw (j : Json) : Except String Json := do
   let ed : Cost := edSum g.cost r c
   let m : Cost := if getBoolD j "prune" false then ed else s.maxDist
   let mld := if engineC then s.mldC else s.mldPy
-  let model := distModel g m mld
+  let prune := getBoolD j "prune" false
+  let model := distModel g m mld (if engineC then !prune else true)
   let spec := dtwSpec g
   let specFull := distSpec g mld
   let mut out : List (String × Json) := [("model", costJ model), ("spec", costJ spec),
